@@ -120,7 +120,7 @@ class Check:
             json.dump(ev, f, indent=1, default=str)
         os.replace(tmp, os.path.join(EVID, f'{self.prop}.json'))
         st = 'FAIL' if self.violations else 'ok'
-        print(f'[{self.prop}] {self.tier}: {st}; states={cov["states"]} evaluations={cov["evaluations"]} '
+        print(f'[{self.prop}] {self.tier}: {st}; states={cov.get("states", 0)} evaluations={cov["evaluations"]} '
               f'impl-traces={cov["traces_validated_against_impl"]} violations={len(self.violations)} '
               f'known={sorted(self.kf_hits)} wall={wall:.1f}s', flush=True)
         return 1 if self.violations else 0
